@@ -542,13 +542,28 @@ package graphql
 //@   modifies FieldContext.Parent
 
 // ---------------------------------------------------------------- runtime hooks used by generated code (C04)
+// OperationContext.Recover runs the operation's own recover function exactly once and needs no response context
+// (it is also used by the websocket goroutine, which has none); Error/Errorf add to the response context.
 // (assumption: the user's error presenter and recover function do not panic themselves)
-//@ trusted (*OperationContext).Error(ctx, err)
+//@ trusted field:github.com/99designs/gqlgen/graphql.OperationContext.RecoverFunc(ctx, err) (e)
 //@   nopanic
-//@ trusted (*OperationContext).Errorf(ctx, format, args)
+//@ trusted AddErrorf(ctx, format, args)
 //@   nopanic
-//@ trusted (*OperationContext).Recover(ctx, err) (e)
+//@ func (*OperationContext).Recover [C04]
+//@   ensures calls(RecoverFunc) == 1 && calls(ErrorOnPath) == 1 && calls(getResponseContext) == 0 && calls("github.com/99designs/gqlgen/graphql.Recover") == 0
+//@   assumenopanic the recover function and ErrorOnPath do not panic
+//@ func (*OperationContext).Error [C04]
+//@   ensures !isType(err, "github.com/vektah/gqlparser/v2/gqlerror.List") ==> calls(AddError) == 1
+//@   assumenopanic AddError needs the response context every generated caller provides; the presenter does not panic
+//@ func (*OperationContext).Errorf [C04]
+//@   ensures calls(AddErrorf) == 1
+//@   assumenopanic as Error
+
+// ForName is a deterministic, read-only lookup (gqlparser): modelled by the uninterpreted function forName.
+//@ trusted (github.com/vektah/gqlparser/v2/ast.OperationList).ForName(name) (op)
+//@   ensures op == forName(recv, name)
 //@   nopanic
+//@   pure
 
 // ---------------------------------------------------------------- FieldSet.Dispatch: join completeness, spawn rule
 // C05: every WaitGroup.Add(1) is matched by exactly one spawned goroutine that performs exactly one Done (deferred),
@@ -567,9 +582,3 @@ package graphql
 //@   goensures calls(Done) == 1
 //@   at `wg.Wait()` requires added == calls(spawn)
 //@   ensures old(len(m.delayed)) > 1 ==> calls(Wait) == 1
-
-// ForName is a deterministic, read-only lookup (gqlparser): modelled by the uninterpreted function forName.
-//@ trusted (github.com/vektah/gqlparser/v2/ast.OperationList).ForName(name) (op)
-//@   ensures op == forName(recv, name)
-//@   nopanic
-//@   pure
